@@ -9,7 +9,7 @@ import itertools
 import z3
 
 from .types import (INT, REAL, BOOL, STR, NONE, SLICE, FUNC, MODULE, RECORD, TAbs, TSeq, TSet, TOpt, TTuple,
-                    TDict, TPy, TIter, SV, T, parse_type)
+                    TDict, TPy, TIter, TMap, SV, T, parse_type)
 from .spec import Contract, Loop, Lemma, Ghost
 
 
@@ -52,6 +52,17 @@ z3.Exists = _safe_quant(_z3_exists)
 
 class Stale(Exception):
     """The contract cannot be applied to the current source (anchor / name / loop missing)."""
+
+
+class LazySpec:
+    """A witness expression, evaluated in the state (environment) in which the existential is met."""
+
+    def __init__(self, ex, text):
+        self.ex = ex
+        self.tree = ast.parse(text, mode="eval").body
+
+    def value(self, st):
+        return self.ex.ev(st, self.tree)
 
 
 class Obl:
@@ -748,6 +759,8 @@ class Exec:
             return SV(base.t.elems[k], base.t.get(base.z, k))
         if isinstance(base.t, TPy) and base.t.what == "pytuple" and idx.t == INT and z3.is_int_value(idx.z):
             return base.py[idx.z.as_long()]
+        if isinstance(base.t, TMap):
+            return SV(base.t.v, z3.Select(base.z, self.coerce(idx, base.t.k).z))
         if isinstance(base.t, TDict):
             k = self.coerce(idx, base.t.k)
             if not st.spec:
@@ -805,7 +818,7 @@ class Exec:
         s2.witness = {}
         if witness:
             for wn, wt in witness.items():
-                s2.witness[wn] = self.ev(s2, ast.parse(wt, mode="eval").body)
+                s2.witness[wn] = LazySpec(self, wt)     # evaluated where it is used (may mention bound variables)
         v = self.ev(s2, tree)
         # definitional axioms produced while evaluating the spec (slices, concatenations) are kept
         for h in s2.hyps[before:]:
@@ -862,6 +875,26 @@ class Exec:
             st.env[name.strip()] = v
         elif text.startswith("havoc "):
             self.havoc(st, text[6:].strip())
+        elif text.startswith("set "):
+            # ghost update:  set m[key] = value   (maps / sequences declared in `locals`)
+            tree = ast.parse(text[4:].strip()).body[0]
+            s2 = st.fork()
+            s2.spec = True
+            s2.hyps = st.hyps
+            val = self.ev(s2, tree.value)
+            spec_was = st.spec
+            st.spec = True
+            try:
+                self.assign_to(st, tree.targets[0], val, tree)
+            finally:
+                st.spec = spec_was
+        elif text.startswith("ghost "):
+            # ghost declaration:  ghost name: type   (an arbitrary initial value)
+            name, ty = text[6:].split(":", 1)
+            nv = self.fresh(name.strip(), parse_type(ty.strip()))
+            for f in self.wf(nv):
+                st.hyps.append(f)
+            st.env[name.strip()] = nv
         else:
             raise Unsupported("ghost statement %r" % text)
 
@@ -1057,6 +1090,9 @@ class Exec:
                 fn = lambda j: z3.If(z3.And(lo_z <= j, j < hi_z), v.z, aa[j])
             st.env[bn] = self.new_seq(st, base.t.elem, ln, fn, base.t.kind, bn.replace(".", "_"))
             return
+        if isinstance(base.t, TMap):
+            st.env[bn] = SV(base.t, z3.Store(base.z, self.coerce(idx, base.t.k).z, self.coerce(val, base.t.v).z))
+            return
         if isinstance(base.t, TDict):
             k = self.coerce(idx, base.t.k)
             v = self.coerce(val, base.t.v)
@@ -1247,7 +1283,9 @@ class Exec:
         for k, z in enumerate(extra_implicit):
             self.oblige(st, "loop%d.%s.implicit%d" % (o, phase, k), z, "invariant-" + phase, node, "0 <= k <= n")
         for k, inv in enumerate(lp.invariant):
-            self.oblige(st, "loop%d.%s.inv%d" % (o, phase, k), self.spec(st, inv), "invariant-" + phase, node, inv)
+            self.oblige(st, "loop%d.%s.inv%d" % (o, phase, k),
+                        self.spec(st, inv, witness=getattr(lp, "witness", {}).get(inv)), "invariant-" + phase,
+                        node, inv)
 
     def assume_invariant(self, st, lp):
         for inv in lp.invariant:
@@ -1503,6 +1541,9 @@ class Exec:
         c = self.c
         for pn, pt in list(c.params.items()) + list(c.free.items()):
             t = parse_type(pt)
+            if hasattr(t, "make_param"):
+                st.env[pn] = t.make_param(self, st, pn)
+                continue
             if isinstance(t, TIter):
                 items = self.const(pn.replace(".", "_") + "_items", t.seq_t)
                 pos = z3.Const(pn.replace(".", "_") + "_pos", z3.IntSort())
@@ -1651,6 +1692,9 @@ class Exec:
                 t = parse_type(pt)
                 if isinstance(t, TIter):
                     continue
+                if hasattr(t, "make_param"):
+                    st.env[pn] = t.make_param(self, st, pn)
+                    continue
                 sv = self.const(pn.replace(".", "_"), t)
                 st.env[pn] = sv
                 for f in self.wf(sv):
@@ -1672,7 +1716,7 @@ class Exec:
             st.old = dict(st.env)
             # lemmas may rely on the contract's requires only if they say so (hints == ["requires"])
             if "requires" in l.hints:
-                for r in self.c.requires:
+                for r in self.c.requires + self.c.quiet_requires:
                     st.hyps.append(self.spec(st, r))
             bind = {}
             for pn, pt in l.params.items():
